@@ -59,7 +59,7 @@ func runC12(x *Ctx) {
 	x.C.Rule("C12.R4", "resolveSliceIndices gets the slice of the segment and the length of the collection sliced", 3)
 	x.C.Rule("C12.R5", "Select is resolve(selector, subject, nil)", 1)
 	x.C.Rule("C12.R6", "resolveSliceIndices computes Python's clamped slice on every region of (start, end, length)", 1)
-	x.C.Rule("C12.R7", "the index case of resolve: element i, or length+i for a negative i, failure outside the collection", 2)
+	x.C.Rule("C12.R7", "the index case of resolve: element i, or length+i for a negative i, failure outside the collection; numbers kept at full width", 3)
 	x.C.Rule("C12.R8", "numbers in a selector are decimal: strconv conversions reachable from Parse use base 10, full width", 1)
 
 	parse := x.fn("C12.R1", selPkg+"Parse")
@@ -238,6 +238,7 @@ func runC12(x *Ctx) {
 	sliceTable(x)
 	runTotalLoops(x, "C12")
 	indexTable(x)
+	noNarrowing(x)
 	decimalNumbers(x)
 
 	// ---------------- R5
